@@ -369,15 +369,35 @@ func applyByteFault(m *message, f *engine.Fault, recorded []*message) bool {
 		cur := int(binary.BigEndian.Uint16(raw[fl.Start : fl.Start+2]))
 		junkLen := 1 + int(f.N[1])%5
 		var junk []byte
-		switch int(f.N[2]) % 3 {
+		atStart := false
+		switch int(f.N[2]) % 6 {
 		case 0:
 			junk = refmodel.Expand(uint64(f.N[2]), "junk", junkLen)
 		case 1:
 			junk = make([]byte, junkLen)
-		default:
+		case 2:
 			junk = []byte{1, 'a', '=', 0, ';'}[:junkLen] // a pair the six-byte rule drops
+		default:
+			// a whole, well-formed pair the publisher never signed: with a
+			// zero-length key, with a zero-length value, or an ordinary one; at
+			// the end of the mapping or in front of its first pair
+			v := refmodel.Expand(uint64(f.N[2]), "smuggled", 1+int(f.N[1])%40)
+			switch int(f.N[2]) % 6 {
+			case 3:
+				junk = append([]byte{0, '=', byte(len(v))}, v...)
+			case 4:
+				junk = append(append([]byte{byte(len(v))}, v...), '=', 0)
+			default:
+				junk = append([]byte{2, 'z', 'z', '=', byte(len(v))}, v...)
+			}
+			junk = append(junk, ';')
+			junkLen = len(junk)
+			atStart = int(f.N[1])%2 == 1
 		}
 		at := fl.Start + 2 + cur
+		if atStart {
+			at = fl.Start + 2
+		}
 		if at > len(raw) || cur+junkLen > 0xFFFF {
 			return false
 		}
@@ -1210,9 +1230,10 @@ func c06Check(o *engine.Outcome, sh *engine.Shape, count bool, ef *engine.Fault,
 	})
 	if !parsed {
 		if sh.Kind == "ls2" && len(b) < 499 {
-			// a specific, recorded corner: the parser refuses anything shorter
-			// than its fixed minimum size, which a DSA destination with one
-			// lease and a very short encryption key of an unknown type undercuts
+			// a specific corner (repaired by /repo 6a548f7): the parser refused
+			// anything shorter than its fixed minimum size, which a DSA destination
+			// with one lease and a very short encryption key of an unknown type
+			// undercuts; the qualifier stays so that a regression keeps its name
 			return "own-serialisation-rejected-by-parser/shorter-than-the-parsers-fixed-minimum-of-499-bytes", fmt.Sprintf("%d bytes", len(b))
 		}
 		return "own-serialisation-rejected-by-parser", fmt.Sprintf("%d bytes", len(b))
